@@ -21,6 +21,11 @@ import Mathlib.Tactic.IntervalCases
 import CompmechVerif.Core.CExprSem
 import CompmechVerif.Bardell.Check
 
+set_option linter.unusedSectionVars false
+set_option linter.unusedSimpArgs false
+set_option linter.unnecessarySeqFocus false
+set_option linter.unusedVariables false
+
 namespace Compmech.C10
 
 section mono
